@@ -195,18 +195,8 @@ example : runHandlers [.pass 1, .rewrite 2 3, .pass 3, .respond 4 201, .pass 5] 
 /-- **nested subroutes follow the same rules** (1): a subroute without error routes IS its route
     list, evaluated by the same function in the same chain. -/
 theorem subroute_same_rules (rs es : List Route) (k : K) (r : Req) (t : Trace) :
-    runHandler (.sub rs false es) k r t = runRoutes rs k r t := by
-  simp only [runHandler]
-  rw [rs_ok rs reachK r t, rs_ok rs k r t]
-  have hn := specRoutes_no_marker rs r t
-  cases hs : specRoutes rs r t with
-  | cont r' t' => simp [Res.bind, reachK]
-  | stop o =>
-    rw [hs] at hn
-    cases o with
-    | done t' s => simp [Res.bind]
-    | err t' st r' => simp [Res.bind]
-    | reached r' t' => exact absurd hn (by simp [Res.NoMarker])
+    runHandler (.sub rs false es) k r t = runRoutes rs k r t :=
+  runHandler_sub_without_errors rs es k r t
 
 /-- (2): wrapping a server's whole route list into one subroute changes nothing observable. -/
 theorem subroute_wrap_invariant (rs errs : List Route) (hasErrs : Bool) (req : Req) :
